@@ -26,6 +26,7 @@ type SMTCtx struct {
 	n      int
 	apps   map[string][]*OpaqueApp // opaque function name -> applications
 	liteSlice bool
+	inQuant   int // >0 while evaluating under a quantifier: terms may mention bound variables
 }
 
 type OpaqueApp struct {
@@ -62,6 +63,9 @@ func (c *SMTCtx) declare(hint, sort string) string {
 
 // define names a term; short terms are returned as they are.
 func (c *SMTCtx) define(hint, sort, term string) string {
+	if c.inQuant > 0 {
+		return term
+	}
 	if len(term) < 48 && !strings.Contains(term, "ite") {
 		return term
 	}
